@@ -68,6 +68,12 @@ VARIANTS = {
     'mode': ({'body': 'a <b tal:content="1">x</b> ${v}'}, {'body': 'a <b tal:content="1">x</b> ${v}', 'cfg': {'mode': 'text'}}),
     'filename': ({}, {'cfg': {'filename': '/x/other.pt'}}),
     'body': ({}, {'body': '<p>other</p>'}),
+    'body-crlf-vs-lf-xml': ({'body': '<?xml version="1.0"?>\r\n<p>a\r\nb ${v}</p>\r\n'}, {'body': '<?xml version="1.0"?>\n<p>a\nb ${v}</p>\n'}),
+    'body-cr-vs-lf-xml': ({'body': '<?xml version="1.0"?>\r<p>a\rb ${v}</p>'}, {'body': '<?xml version="1.0"?>\n<p>a\nb ${v}</p>'}),
+    'body-crlf-vs-lf-html': ({'body': '<p>a\r\nb ${v}</p>\r\n'}, {'body': '<p>a\nb ${v}</p>\n'}),
+    'body-inner-whitespace': ({'body': '<p class="a  b">a  b ${v}</p>'}, {'body': '<p class="a b">a b ${v}</p>'}),
+    'body-letter-case': ({'body': '<P Title="T">x ${v}</P>'}, {'body': '<p title="T">x ${v}</p>'}),
+    'body-trailing-newline': ({'body': '<p>x ${v}</p>\n'}, {'body': '<p>x ${v}</p>'}),
     'extra_builtins': ({'body': '<p>${zz|0}</p>'}, {'body': '<p>${zz|0}</p>', 'cfg': {'extra_builtins': {'zz': 1}}}),
     'boolean_attributes-unset-vs-empty': ({}, {'cfg': {'boolean_attributes': []}}),
     'boolean_attributes-empty-vs-set': ({'cfg': {'boolean_attributes': []}}, {'cfg': {'boolean_attributes': ['checked']}}),
